@@ -170,9 +170,10 @@ pub fn factor(n: Uint, alg: Algo, prefs: &Preferences) -> Result<Vec<Uint>, Fact
         return Ok(vec![n]);
     }
     // Modular arithmetic (ZmodN) stores moduli on 512 bits, but additions need
-    // one spare bit and modular inversion (extended GCD cofactors) two:
-    // refuse larger inputs instead of computing with invalid arithmetic.
-    if n.bits() > 64 * arith_montgomery::MINT_WORDS as u32 - 2 {
+    // one spare bit and the cofactors of the extended GCD behind modular
+    // inversion need 12: refuse inputs above 500 bits (the documented limit)
+    // instead of computing with invalid arithmetic.
+    if n.bits() > 64 * arith_montgomery::MINT_WORDS as u32 - 12 {
         return Err(FactoringFailure);
     }
     let mut factors = vec![];
